@@ -21,7 +21,7 @@ ASSUMPTIONS = ['id space is lowered through StreamControl._maximum_stream_id, as
 DECIDING_REQUIRED = ('allocations_compared', 'wraps_seen', 'exhaustion_agreed', 'dup_request_rejected',
                      'request_ids_checked', 'wire_wraps_seen', 'ids_skipped_because_active')
 
-DEPTH = {'quick': 6, 'thorough': 8}
+DEPTH = {'quick': 7, 'thorough': 9}
 PREFIX = 2
 
 
